@@ -381,6 +381,22 @@ theorem activeIn_resetStrategy (e : Engine M) (r : Nat) (h : ActiveIn e.w)
     ActiveIn (resetStrategy e r).w :=
   activeIn_reset e.w (routeOf e r).sym h hnone
 
+/-- C02's composition without its registry hypothesis: in a state that satisfies the invariant, "active" alone is
+    enough — no order of the symbol that was resting before the minute is left ACTIVE with its price inside the
+    minute's range, registered or not (normal simulator, every strategy) -/
+theorem active_order_never_left_in_range (fuel : Nat) (e : Engine M) (sym : Nat) (real : Candle) (hv : real.Valid) :
+    let r := matchLoop u fuel e sym real (ComposeLemmas.sel sym e real) (ComposeLemmas.sel sym) false
+    r.1.err = none → ActiveIn r.1.w →
+      ∀ id, id < e.w.orders.length → (orderOf r.1 id).status = .active → (orderOf r.1 id).sym = sym →
+        ¬ Jesse.Gen.candleIncludesPrice real (orderOf e id).price := by
+  intro r herr hin id hid hact hsym
+  have hext := (ComposeLemmas.loop_keeps u e sym real fuel e real hv (FrameLemmas.EExt.refl e) (fun _ _ _ _ h => h) herr).1
+  have hlen : id < r.1.w.orders.length := Nat.lt_of_lt_of_le hid hext.len
+  have hreg := (hin id hlen).2 hact
+  have hsym' : (r.1.w.orders.getD id default).sym = sym := hsym
+  rw [hsym'] at hreg
+  exact C02.resting_order_never_left_in_range u fuel e sym real hv herr id hid hact hreg
+
 /-- the account operations of a session -/
 inductive AOp where
   | submit (sym : Nat) (side : Side) (type : OrderType) (q p : Rat) (ro : Bool)
